@@ -92,6 +92,11 @@ fn unlim(v: i64) -> u64 {
     }
 }
 
+thread_local! {
+    /// payload of the entry proposed during the current stabilisation phase (AppView.hasProbe looks for it)
+    pub static PROBE_PAYLOAD: std::cell::RefCell<String> = std::cell::RefCell::new("zz".to_string());
+}
+
 #[derive(Default)]
 pub struct AppState {
     pub outstanding: Option<Ready>,
@@ -228,6 +233,8 @@ pub enum Choice {
     Crash { n: u64 },
     Restart { n: u64, applied: i64 },
     SetKnob { n: u64, name: String, val: i64 },
+    /// a message that must be refused: a local-only type, or a response from a node that is not tracked
+    Bogus { n: u64, ty: String, from: u64 },
     /// set the randomized election timeout that node n will draw at its next reset
     SetTimeout { n: u64, rt: u64 },
 }
@@ -445,7 +452,7 @@ impl Cluster {
                 .map(|(k, p)| format!("{}:{}", k, p))
                 .collect::<Vec<_>>()
                 .join(","),
-            has_probe: a.sm.iter().any(|(_, p)| p == "zz"),
+            has_probe: PROBE_PAYLOAD.with(|pp| a.sm.iter().any(|(_, p)| *p == *pp.borrow())),
             conf: hist_conf_at(&a.conf_hist, a.applied),
             incarnation: a.incarnation,
         }
@@ -718,6 +725,30 @@ impl Cluster {
                 })
             }
             Choice::Campaign { n } => self.simple_call(n, "Campaign", json!({}), |r| r.campaign()),
+            Choice::Bogus { n, ty, from } => {
+                let mt = match ty.as_str() {
+                    "Hup" => MessageType::MsgHup,
+                    "Beat" => MessageType::MsgBeat,
+                    "Unreachable" => MessageType::MsgUnreachable,
+                    "SnapStatus" => MessageType::MsgSnapStatus,
+                    "CheckQuorum" => MessageType::MsgCheckQuorum,
+                    "AppResp" => MessageType::MsgAppendResponse,
+                    "VoteResp" => MessageType::MsgRequestVoteResponse,
+                    "HBResp" => MessageType::MsgHeartbeatResponse,
+                    _ => MessageType::MsgRequestPreVoteResponse,
+                };
+                let term = if self.is_up(n) {
+                    self.nodes[self.slot(n)].raw.as_ref().unwrap().raft.term
+                } else {
+                    0
+                };
+                let mut m = Message::default();
+                m.set_msg_type(mt);
+                m.from = from;
+                m.to = n;
+                m.term = term;
+                self.simple_call(n, "Bogus", json!({"ty": ty, "from": from, "term": term}), |r| r.step(m))
+            }
             Choice::Ping { n } => self.simple_call(n, "Ping", json!({}), |r| {
                 r.ping();
                 Ok(())
